@@ -537,9 +537,14 @@ def gen_e2e(rng, tier):
         nmsg[rng.randrange(2)] = 0
     deleg = [rng.random() < 0.5, rng.random() < 0.5]
     code_mode = rng.choice(["set", "set", "set", "alloc"])
+    with_dilate = rng.random() < 0.5
     todo = {}
     for who in (0, 1):
         seq = [["api", who, "send", hx(payload(rng, i, who))] for i in range(nmsg[who])]
+        if with_dilate:
+            for j in range(rng.randrange(0, 4)):
+                body = b'{"type": "%s", "n": %d}' % (rng.choice([b"please", b"connection-hints", b"reconnect"]), j)
+                seq.insert(rng.randrange(0, len(seq) + 1), ["dsend", who, hx(body)])
         if code_mode == "alloc" and who == 0:
             codeop = ["api", 0, "allocate_code"]
         elif code_mode == "alloc":
@@ -637,6 +642,48 @@ def exh_case(pi, k, sigma, who_drops, deleg):
     return dict(kind="e2e", seed=7, deleg=deleg, ops=ops, exh=True)
 
 
+def _keys(d):
+    try:
+        return list(d.keys())
+    except Exception:
+        try:
+            return ["?%s" % (x[0] if isinstance(x, tuple) else x) for x in d]
+        except Exception:
+            return ["?"]
+
+
+class _DStandIn:
+    """Boss._D stand-in for the whole-client world: records what the Boss hands to the Dilator"""
+    _manager = None
+
+    def __init__(self, tap):
+        self.tap = tap
+
+    def got_key(self, key):
+        pass
+
+    def got_wormhole_versions(self, v):
+        pass
+
+    def received_dilate(self, pt):
+        self.tap.dilated.append(pt)
+        self.tap.order.append(("dilate", pt))
+
+
+def dil_case(perm, deleg, ndil=2, nmsg=3):
+    """A submits dilate-0..dilate-(ndil-1) and numbered messages 0..nmsg-1 after the key is verified; the server
+    hands them to B in the order `perm` (a permutation of range(ndil + nmsg); index < ndil = dilate-index)"""
+    ops = [["open", 0], ["open", 1], ["api", 0, "set_code", CODE], ["api", 1, "set_code", CODE], ["settle"]]
+    for j in range(ndil):
+        ops.append(["dsend", 0, hx(b'{"type": "dil", "n": %d}' % j)])
+    for i in range(nmsg):
+        ops.append(["api", 0, "send", "%02x%02x" % (0xa0 + i, i)])
+    ops += [["c2s", 0]] * (ndil + nmsg)
+    ops += [["permtail", 1, list(perm)]]
+    ops += [["s2c", 1]] * (ndil + nmsg)
+    return dict(kind="e2e", seed=11, deleg=deleg, ops=ops, dil=True)
+
+
 class Tap:
     """observation points on one real client (instance attributes only; nothing in /repo changes)"""
 
@@ -644,32 +691,43 @@ class Tap:
         self.c = c
         self.idx = idx
         self.delivered = []     # W.received(pt) calls
-        self.got_phase = []     # Boss._got_phase(phase, pt) calls with the resulting (next, keys)
+        self.dilated = []       # D.received_dilate(pt) calls
+        self.order = []         # both, in call order
+        self.got_phase = []     # Boss._got_phase / _got_dilate calls with what they caused and the buffers afterwards
         b = c.boss
         w = c.w
         orig_received = w.received
         orig_got_phase = b._got_phase
+        orig_got_dilate = b._got_dilate
         orig_rx = b._M.rx_message
+        b._D = _DStandIn(self)
 
         def received(pt):
             self.delivered.append(pt)
+            self.order.append(("received", pt))
             return orig_received(pt)
 
-        def got_phase(phase, pt):
-            n0 = len(self.delivered)
-            st0 = automat_state(b)
-            try:
-                return orig_got_phase(phase, pt)
-            finally:
-                self.got_phase.append((phase, pt, st0, list(self.delivered[n0:]), b._next_rx_phase,
-                                       list(b._rx_phases.keys())))
+        def wrap(kind, orig):
+            def f(n, pt):
+                n0 = len(self.order)
+                st0 = automat_state(b)
+                try:
+                    return orig(n, pt)
+                finally:
+                    # observation only: must never raise into the real call, whatever the buffers look like
+                    self.got_phase.append((kind, n, pt, st0, list(self.order[n0:]), getattr(b, "_next_rx_phase", "?"),
+                                           _keys(getattr(b, "_rx_phases", None)),
+                                           getattr(b, "_next_rx_dilate_seqnum", "?"),
+                                           _keys(getattr(b, "_rx_dilate_seqnums", None))))
+            return f
 
         def rx_message(side, phase, body):
             events.append(("rx", idx, side, phase))
             return orig_rx(side, phase, body)
 
         w.received = received
-        b._got_phase = got_phase
+        b._got_phase = wrap("rx", orig_got_phase)
+        b._got_dilate = wrap("drx", orig_got_dilate)
         b._M.rx_message = rx_message
 
 
@@ -703,6 +761,7 @@ class E2ERun:
         self.events = []
         self.taps = [Tap(self.events, self.cl[0], 0), Tap(self.events, self.cl[1], 1)]
         self.sent = {0: [], 1: []}
+        self.dsent = {0: [], 1: []}      # bodies submitted as dilate-0, dilate-1, … (what Manager.send_dilation_phase does)
         self.ngets = {0: 0, 1: 0}
         self.viol = []
         self.tags = set()
@@ -726,6 +785,13 @@ class E2ERun:
                 viol.append(("not-prefix:" + classify(d, s),
                              f"{where}: client {x} W.received {[m.hex()[:16] for m in d]} vs sent "
                              f"{[m.hex()[:16] for m in s]}"))
+                return False
+            dd = taps[x].dilated
+            ds = self.dsent[1 - x]
+            if dd != ds[:len(dd)]:
+                viol.append(("dilate-not-prefix:" + classify(dd, ds),
+                             f"{where}: client {x}'s Dilator was handed {[m.hex()[:16] for m in dd]} but its peer "
+                             f"submitted dilate-0.. = {[m.hex()[:16] for m in ds]}"))
                 return False
         return True
 
@@ -758,6 +824,15 @@ class E2ERun:
             if cl[op[1]].delegated:
                 return True
             self.ngets[op[1]] += 1
+        if k == "dsend":
+            # exactly what _dilation.manager.Manager.send_dilation_phase does: S.send("dilate-%d" % n, body);
+            # the real Send seals it with the real key (or queues it until the key is verified)
+            body = unhx(op[2])
+            n = len(self.dsent[op[1]])
+            self.dsent[op[1]].append(body)
+            cl[op[1]].boss._S.send("dilate-%d" % n, body)
+            self.tags.add("e2e:dsend")
+            return True
         r = W.do(op)
         self.tags.add("e2e:" + k + (":noop" if r == "noop" else ""))
         return True
@@ -804,6 +879,13 @@ def run_e2e(case):
                                      f"client {x} received {len(r)} of the {len(sent[1 - x])} messages its peer sent "
                                      f"(internal errors: {cl[x].internal[:2]} / {cl[1 - x].internal[:2]})"))
                         break
+                if not viol:
+                    for x in (0, 1):
+                        if taps[x].dilated != run.dsent[1 - x]:
+                            viol.append(("dilate-incomplete-after-settle",
+                                         f"client {x}'s Dilator got {len(taps[x].dilated)} of the "
+                                         f"{len(run.dsent[1 - x])} dilate-N messages its peer submitted"))
+                            break
         # ---- the same run through the model: Pipe per direction, reorder buffer per client
         for x in (0, 1):          # receiver x, sender y
             y = 1 - x
@@ -816,24 +898,31 @@ def run_e2e(case):
             b = cl[x].boss
             lines.append("pipe " + " ".join(acts) if acts else "pipe")
             exp.append(f"received=[{','.join(hx(m) for m in taps[x].delivered)}] next={b._next_rx_phase} "
-                       f"buf={len(b._rx_phases)}")
-            # reorder buffer replay
+                       f"buf={len(_keys(getattr(b, '_rx_phases', None)))}")
+            # replay of both reorder buffers (numbered phases and dilate-N), in the order the Boss saw them
             lines += [f"new {cl[x].side}", "boss got_code", "boss happy"]
-            z = ("M=S0A O=S0_no_pake S=S0_no_key R=S0_unknown_key tx=0 rx={rx} buf=[{buf}] drx=0 dbuf=[] pend=[] "
-                 "proc=[] sq=0 oq=0 res={res} obs=0")
-            exp += ["ok", "ok code | B=S1_lonely " + z.format(rx=0, buf="", res=0),
-                    "ok | B=S2_happy " + z.format(rx=0, buf="", res=0)]
+            z = ("M=S0A O=S0_no_pake S=S0_no_key R=S0_unknown_key tx=0 rx={rx} buf=[{buf}] drx={drx} dbuf=[{dbuf}] "
+                 "pend=[] proc=[] sq=0 oq=0 res={res} obs=0")
+            exp += ["ok", "ok code | B=S1_lonely " + z.format(rx=0, buf="", drx=0, dbuf="", res=0),
+                    "ok | B=S2_happy " + z.format(rx=0, buf="", drx=0, dbuf="", res=0)]
             res = 0
-            for (phase, pt, st0, ds, nxt, keys) in taps[x].got_phase:
+            for (kind, phase, pt, st0, evs, nxt, keys, dnxt, dkeys) in taps[x].got_phase:
                 if st0 != "S2_happy":
                     continue
-                res += len(ds)
-                lines.append(f"rx {phase} {hx(pt)}")
-                evs = "; ".join("received " + hx(d) for d in ds)
-                exp.append("ok" + (" " + evs if evs else "") + " | B=S2_happy " +
-                           z.format(rx=nxt, buf=",".join(str(k) for k in keys), res=res))
+                res += sum(1 for e in evs if e[0] == "received")
+                lines.append(f"{kind} {phase} {hx(pt)}")
+                ev = "; ".join(e[0] + " " + hx(e[1]) for e in evs)
+                exp.append("ok" + (" " + ev if ev else "") + " | B=S2_happy " +
+                           z.format(rx=nxt, buf=",".join(str(k) for k in keys), drx=dnxt,
+                                    dbuf=",".join(str(k) for k in dkeys), res=res))
         n = sum(len(t.delivered) for t in taps)
         tags.add("e2e:delivered=%d" % min(n, 16))
+        nd = sum(len(t.dilated) for t in taps)
+        if nd:
+            tags.add("e2e:dilate-delivered=%d" % min(nd, 8))
+        for x in (0, 1):
+            if any(g[0] == "drx" and g[8] for g in taps[x].got_phase) and any(g[0] == "rx" for g in taps[x].got_phase):
+                tags.add("e2e:dilate-parked-while-phases-arrive")
         tags.add("e2e:api=" + ("deleg" if case["deleg"][0] else "defer") + "/" + ("deleg" if case["deleg"][1] else "defer"))
         nrx = {}
         for ev in events:
@@ -860,6 +949,9 @@ def run_e2e(case):
 # --------------------------------------------------------------------------- entry points
 
 E2E_CORPUS = [
+    # dilate-N phases share the mailbox with numbered phases: order to B = dilate-1, 0, 1, 2, dilate-0
+    dil_case([1, 2, 3, 4, 0], [False, False]),
+    dil_case([1, 0, 3, 2, 4], [True, False]),
     # send before code on both sides, everything in order
     dict(kind="e2e", seed=1, deleg=[False, True],
          ops=[["api", 0, "send", "a0"], ["api", 1, "send", "b0"], ["open", 0], ["open", 1],
@@ -892,6 +984,13 @@ def cases(rng, tier):
         out.append(dict(kind="comp", seed=rng.randrange(10**6), ops=gen_comp(rng, adversarial=(i % 3 == 2))))
     for i in range(150 * m):
         out.append(gen_e2e(rng, tier))
+    perms5 = list(itertools.permutations(range(5)))
+    if tier == "thorough":
+        for pm in perms5:
+            out.append(dil_case(list(pm), [False, True]))
+    else:
+        for _ in range(10):
+            out.append(dil_case(list(rng.choice(perms5)), [rng.random() < 0.5, rng.random() < 0.5]))
     if tier == "thorough":
         perms = list(itertools.permutations(range(3)))
         for pi in perms:
@@ -920,6 +1019,11 @@ def search(rng, seconds, seeds):
         if c.get("kind") == "e2e":
             yield c, run_case(c)
     for c in E2E_CORPUS:
+        yield c, run_case(c)
+    for pm in itertools.permutations(range(5)):
+        if time.time() - t0 > seconds:
+            return
+        c = dil_case(list(pm), [False, True])
         yield c, run_case(c)
     perms = list(itertools.permutations(range(3)))
     for pi in perms:
